@@ -12,6 +12,9 @@ NAME="$(sed -n 's/^name = "\(.*\)"/\1/p' "$H/Cargo.toml" | head -1)"
 TD="$HERE/.cache/target/xpand"
 mkdir -p "$TD"
 rm -rf "$TD"/debug/.fingerprint/"$NAME"-* 2>/dev/null || true
+# the path dependency on the repository: cargo decides its freshness by mtime, so a tree restored from a snapshot (older mtimes, other
+# content, same path) would be served the artifacts of the tree that was there before: force the two members stale as well
+rm -rf "$TD"/debug/.fingerprint/unimock-* "$TD"/debug/.fingerprint/unimock_macros-* 2>/dev/null || true
 SYSROOT="$(rustc +nightly --print sysroot)"
 NONCE="${VERIF_NONCE:-$(date +%s%N)}"
 cd "$H"
